@@ -5,7 +5,7 @@
     two-layer slots/dict instance, Python calling convention). *)
 From Coq Require Import List Bool String Ascii.
 Import ListNotations.
-From Attrs Require Import Core.Attr Core.Init Core.InitProofs Core.InitProps.
+From Attrs Require Import Core.Attr Core.Init Core.InitProofs Core.InitProps Core.BindProofs.
 Open Scope string_scope.
 
 (** For every well-formed class of any number of fields and every call that binds:
@@ -80,3 +80,28 @@ Theorem init_mode_independent : forall k1 k2 sc1 sc2 von1 von2 pos kw en,
     forall a, In a (k_attrs k1) -> read k1 i1 (a_name a) = read k2 i2 (a_name a).
 Proof. exact init_mode_independent_l. Qed.
 Print Assumptions init_mode_independent.
+
+(** A call is rejected with TypeError exactly for the four causes: surplus positional
+    arguments, an unknown keyword, an argument given both positionally and by keyword, a
+    mandatory parameter left out. *)
+Theorem bind_typeerror_iff : forall sc pos kw,
+  bind_call sc pos kw = BindTypeError <->
+  surplus sc pos \/ unknown_keyword sc kw \/ duplicate_argument sc pos kw \/ missing_argument sc pos kw.
+Proof. exact bind_typeerror_iff_l. Qed.
+Print Assumptions bind_typeerror_iff.
+
+(** Otherwise the i-th positional argument is bound to the i-th positional parameter, and
+    every other parameter to its keyword argument, else to its declared default. *)
+Theorem bound_positional : forall sc pos kw en i p v,
+  bind_call sc pos kw = Bound en -> NoDup (map fst (pos_params sc ++ kw_params sc)) ->
+  nth_error (pos_params sc) i = Some p -> nth_error pos i = Some v ->
+  lookup (fst p) en = Some v.
+Proof. exact bound_positional_l. Qed.
+Print Assumptions bound_positional.
+
+Theorem bound_keyword_or_default : forall sc pos kw en p,
+  bind_call sc pos kw = Bound en -> NoDup (map fst (pos_params sc ++ kw_params sc)) ->
+  In p (skipn (List.length pos) (pos_params sc) ++ kw_params sc) ->
+  lookup (fst p) en = match lookup (fst p) kw with Some v => Some v | None => default_val p end.
+Proof. exact bound_keyword_or_default_l. Qed.
+Print Assumptions bound_keyword_or_default.
